@@ -11,7 +11,6 @@ use regex::Captures;
 use regex::Error;
 use regex::Regex;
 
-use crate::util::error_exit;
 
 #[derive(Clone, Debug)]
 pub struct DockerignoreFilter {
@@ -73,14 +72,9 @@ pub fn matches_dockerignore_filter(
     let file_name = file_name.to_string().replace("\\", "/").replace("//", "/");
 
     for dockerignore_filter in dockerignore_filters {
-        let is_match = dockerignore_filter.regex.is_match(&file_name);
-
-        if is_match && dockerignore_filter.negate {
-            return false;
-        }
-
-        if is_match {
-            matched = true;
+        // the last matching line decides, an exception (!) only undoes what precedes it
+        if dockerignore_filter.regex.is_match(&file_name) {
+            matched = !dockerignore_filter.negate;
         }
     }
 
@@ -125,11 +119,11 @@ fn convert_dockerignore_pattern(
     pattern: &str,
     file_path: &Path,
 ) -> Result<DockerignoreFilter, String> {
-    let mut pattern = String::from(pattern);
+    let mut pattern = String::from(pattern.trim());
 
     let mut negate = false;
-    if pattern.starts_with("!") {
-        pattern = pattern.replace("!", "");
+    if let Some(exception) = pattern.strip_prefix('!') {
+        pattern = String::from(exception.trim());
         negate = true;
     }
 
@@ -142,26 +136,26 @@ fn convert_dockerignore_pattern(
 }
 
 static DOCKER_CONVERT_REPLACE_REGEX: LazyLock<Regex> = LazyLock::new(|| {
-    Regex::new("(\\*\\*|\\?|\\.|\\*)").unwrap()
+    Regex::new("(\\*\\*/|\\*\\*|\\?|\\*|[^*?]+)").unwrap()
 });
 
+/// A pattern is relative to the directory of the .dockerignore file: `*` and `?` stay within one path
+/// component, `**` spans any number of them, everything else is literal. It covers the matching entry
+/// and everything below it.
 fn convert_dockerignore_glob(glob: &str, file_path: &Path) -> Result<Regex, Error> {
-    let mut pattern = DOCKER_CONVERT_REPLACE_REGEX
+    let glob = glob.trim_matches(|c| c == '/' || c == '\\');
+
+    let pattern = DOCKER_CONVERT_REPLACE_REGEX
         .replace_all(glob, |c: &Captures| {
             match c.index(0) {
-                "**" => ".*",
-                "." => "\\.",
-                "*" => "[^/]*",
-                "?" => "[^/]",
-                _ => error_exit(".dockerignore", "Error parsing pattern"),
+                "**/" => String::from("(.*/)?"),
+                "**" => String::from(".*"),
+                "*" => String::from("[^/]*"),
+                "?" => String::from("[^/]"),
+                literal => regex::escape(literal),
             }
-            .to_string()
         })
         .to_string();
-
-    while pattern.starts_with("/") || pattern.starts_with("\\") {
-        pattern.remove(0);
-    }
 
     #[cfg(windows)]
     let path = file_path
@@ -173,7 +167,5 @@ fn convert_dockerignore_glob(glob: &str, file_path: &Path) -> Result<Regex, Erro
     #[cfg(not(windows))]
     let path = file_path.to_string_lossy().to_string();
 
-    pattern = path.replace("\\", "\\\\").add("/([^/]+/)*").add(&pattern);
-
-    Regex::new(&pattern)
+    Regex::new(&format!("^{}/{}(/.*)?$", regex::escape(&path), pattern))
 }
